@@ -429,6 +429,11 @@ func (s *state) CheckBody(ctx context.Context, header textproto.Header, body buf
 	}
 
 	result := s.handleAction(act)
+	if result.Reject {
+		// The milter refused the message: modification actions sent before
+		// the final action (quarantine in particular) do not apply.
+		return result
+	}
 	return s.apply(modifyAct, result)
 }
 
